@@ -247,6 +247,24 @@ func init() {
 		cell := value(structure{s})
 		return iface{t: types.NewPointer(x.errStrType), v: &cell}
 	})
+	// Fprintf(w, format, args...) = w.Write([]byte(Sprintf(format, args...)))
+	reg("fmt.Fprintf", func(x *Exec, fr *frame, args []value) value {
+		s := x.sprintf(args[1].(strVal), args[2].(sliceVal))
+		bs := x.bytesOf(s)
+		buf := make([]value, len(bs))
+		for i := range bs {
+			buf[i] = bs[i]
+		}
+		w := args[0].(iface)
+		if w.t == nil {
+			x.rtPanic("invalid memory address or nil pointer dereference (Fprintf to a nil io.Writer)")
+		}
+		m := x.P.prog.LookupMethod(w.t, nil, "Write")
+		if m == nil {
+			panic(unsupported{"Fprintf: writer without Write method"})
+		}
+		return x.callSSA(fr, token.NoPos, m, []value{w.v, sliceVal{a: buf}}, nil)
+	})
 	reg("fmt.Sprint", func(x *Exec, fr *frame, args []value) value {
 		var out []*Term
 		for _, a := range args[0].(sliceVal).a {
@@ -450,21 +468,93 @@ func (x *Exec) sprintf(format strVal, args sliceVal) strVal {
 		}
 		i++
 		if i >= len(f) {
+			out = append(out, x.bytesOf(strVal{s: "%!(NOVERB)"})...)
 			break
 		}
-		verb := f[i]
-		if verb == '%' {
+		if f[i] == '%' {
 			out = append(out, x.tb.bytes['%'])
 			continue
 		}
+		// flags and width (the subset anytype-style code uses: '0', '-', '+', ' ', '#', decimal width)
+		zero, left := false, false
+		for i < len(f) && (f[i] == '0' || f[i] == '-' || f[i] == '+' || f[i] == ' ' || f[i] == '#') {
+			switch f[i] {
+			case '0':
+				zero = true
+			case '-':
+				left = true
+			default:
+				panic(unsupported{"fmt flag " + string(f[i])})
+			}
+			i++
+		}
+		width := 0
+		for i < len(f) && f[i] >= '0' && f[i] <= '9' {
+			width = width*10 + int(f[i]-'0')
+			i++
+		}
+		if i >= len(f) {
+			out = append(out, x.bytesOf(strVal{s: "%!(NOVERB)"})...)
+			break
+		}
+		if f[i] == '.' || f[i] == '*' || f[i] == '[' {
+			panic(unsupported{"fmt precision / indexed argument"})
+		}
+		verb := f[i]
 		if ai >= len(args.a) {
 			out = append(out, x.bytesOf(strVal{s: "%!" + string(verb) + "(MISSING)"})...)
 			continue
 		}
-		out = append(out, x.fmtArg(verb, args.a[ai])...)
+		body := x.fmtArg(verb, args.a[ai])
 		ai++
+		if pad := width - len(body); pad > 0 {
+			// width counts runes; bodies produced here are ASCII whenever a width is given in practice
+			fill := x.tb.bytes[' ']
+			if zero && !left {
+				fill = x.tb.bytes['0']
+			}
+			padding := make([]*Term, pad)
+			for k := range padding {
+				padding[k] = fill
+			}
+			if left {
+				body = append(append([]*Term{}, body...), padding...)
+			} else if zero && len(body) > 0 && body[0].op == OConst && body[0].u == '-' {
+				body = append(append([]*Term{body[0]}, padding...), body[1:]...)
+			} else {
+				body = append(padding, body...)
+			}
+		}
+		out = append(out, body...)
+	}
+	if ai < len(args.a) {
+		panic(unsupported{"fmt with extra arguments"})
 	}
 	return x.mkStr(out)
+}
+
+// hexDigits renders a non-negative value in base 16 (upper or lower case) without leading zeros,
+// forking over the number of significant nibbles.
+func (x *Exec) hexDigits(v *Term, upper bool) []*Term {
+	tb := x.tb
+	w := v.sort.W
+	n := 1
+	for ; n*4 < w; n++ {
+		if x.branch(tb.Ult(v, tb.Const(w, uint64(1)<<(uint(n)*4)))) {
+			break
+		}
+	}
+	out := make([]*Term, n)
+	a := byte('a')
+	if upper {
+		a = 'A'
+	}
+	for k := 0; k < n; k++ {
+		lo := (n - 1 - k) * 4
+		nib := tb.Zext(tb.Extract(v, lo+3, lo), 8)
+		out[k] = tb.Ite(tb.Ult(nib, tb.Const(8, 10)), tb.Add(nib, tb.Const(8, '0')), tb.Add(nib, tb.Const(8, uint64(a-10))))
+	}
+	return out
 }
 
 func (x *Exec) fmtArg(verb byte, a value) []*Term {
@@ -478,6 +568,34 @@ func (x *Exec) fmtArg(verb byte, a value) []*Term {
 			return x.bytesOf(v)
 		}
 	case *Term:
+		if v.sort.K == KBV && (verb == 'x' || verb == 'X') {
+			neg := false
+			if isSigned(iv.t) && x.branch(x.tb.Slt(v, x.tb.Const(v.sort.W, 0))) {
+				neg = true
+				v = x.tb.Neg(v)
+			}
+			d := x.hexDigits(v, verb == 'X')
+			if neg {
+				d = append([]*Term{x.tb.bytes['-']}, d...)
+			}
+			return d
+		}
+		if v.sort.K == KBV && verb == 'c' {
+			// a rune: the real utf8.AppendRune encodes it (invalid runes become U+FFFD there, as in fmt)
+			r := v
+			if r.sort.W > 32 {
+				r = x.tb.Extract(r, 31, 0)
+			} else if r.sort.W < 32 {
+				r = x.tb.Zext(r, 32)
+			}
+			u8 := x.P.prog.ImportedPackage("unicode/utf8")
+			res := x.callSSA(nil, token.NoPos, u8.Func("AppendRune"), []value{sliceVal{}, r}, nil).(sliceVal)
+			out := make([]*Term, len(res.a))
+			for k := range res.a {
+				out[k] = res.a[k].(*Term)
+			}
+			return out
+		}
 		if v.sort.K == KBV && (verb == 'd' || verb == 'v') {
 			if v.op == OConst {
 				if isSigned(iv.t) {
@@ -485,7 +603,14 @@ func (x *Exec) fmtArg(verb byte, a value) []*Term {
 				}
 				return x.bytesOf(strVal{s: strconv.FormatUint(v.u, 10)})
 			}
-			return x.bytesOf(strVal{s: "<int>"})
+			if isSigned(iv.t) {
+				w := v
+				if w.sort.W < 64 {
+					w = x.tb.Sext(w, 64)
+				}
+				return x.bytesOf(x.itoa(w))
+			}
+			panic(unsupported{"fmt %d of a symbolic unsigned value"})
 		}
 		if v.sort.K == KBool && v.op == OConst {
 			return x.bytesOf(strVal{s: strconv.FormatBool(v.u == 1)})
